@@ -23,12 +23,20 @@ def run(ctx):
                        "who-may-write on the flag and the Notify, the placement of the gate before every checkout, and the admin wiring, decided by dominance/must-pass rules over the MIR")
     ctx.assumptions = ["tokio::sync::Notify: a Notified future receives notify_waiters() from the moment it is created, even if not yet polled (documented, trusted)",
                        "interleavings themselves are not explored; the orderings decided here are the ones the documented Notify contract needs"]
+    # the gate word: whatever atomic field(s) of the pool ConnectionPool::paused() / wait_paused() load
+    gate = set()
+    for fn in ("pgcat::pool::ConnectionPool::paused", WP):
+        gb = F.body(fn)
+        if gb:
+            for c in gb.calls(LOAD):
+                gate |= {f for f in F.deep_fields(gb, c.args[0]) if f not in ("0", "data")}
+    gate = {f for f in gate if any(fl["name"] == f for v in (F.adts.get("pgcat::pool::ConnectionPool") or {}).get("variants", []) for fl in v["fields"])}
     # ---------------- R1
     r1 = ctx.rule("C16-R1", "wait_paused creates the Notified future before it reads the paused flag, and awaits that very future when the flag was set", floor=3)
     wp = ctx.body(WP, r1)
     if wp:
         nt = wp.calls(NOTIFIED)
-        ld = [c for c in wp.calls(LOAD) if "paused" in fields_of(wp, c.args[0])] + wp.calls("pgcat::pool::ConnectionPool::paused")
+        ld = [c for c in wp.calls(LOAD) if F.deep_fields(wp, c.args[0]) & gate] + wp.calls("pgcat::pool::ConnectionPool::paused")
         if not nt or not ld:
             r1.missing("Notify::notified / load(paused) in wait_paused")
         else:
@@ -54,19 +62,33 @@ def run(ctx):
     r2 = ctx.rule("C16-R2", "resume clears the flag before notify_waiters (all waiters); pause only sets it; nobody else writes the flag or notifies", floor=4)
     rs = ctx.body(RESUME, r2)
     if rs:
-        st = [c for c in rs.calls(STORE) if "paused" in fields_of(rs, c.args[0])]
+        st = [c for c in rs.calls(STORE) if F.deep_fields(rs, c.args[0]) & gate]
         nw = rs.calls(NOTIFY_WAITERS)
-        r2.check(bool(st) and const_int(st[0].args[1]) == 0 and st[0].name.endswith("::store"), "resume-stores-false", "resume stores false", "resume does not store false into `paused`")
+        r2.check(bool(st) and ((const_int(st[0].args[1]) == 0 and st[0].name.endswith("::store")) or st[0].name.endswith("::fetch_and")), "resume-stores-false", "resume clears the pause flag (%s)" % (st[0].name.split("::")[-1] if st else ""), "resume does not clear the pause flag")
         r2.check(bool(nw) and "paused_waiter" in fields_of(rs, nw[0].args[0]), "resume-notifies-all", "resume calls notify_waiters() on paused_waiter (wakes every held client)", "resume does not call Notify::notify_waiters on paused_waiter (notify_one wakes a single client)")
         r2.check(bool(st) and bool(nw) and rs.dominates(st[0].block, nw[0].block) and st[0].block != nw[0].block, "clear-before-notify", "the flag is cleared before the waiters are woken",
                  "resume wakes the waiters before clearing the flag: a client that re-checks (or arrives) in between is held until the next RESUME")
     ps = ctx.body(PAUSE, r2)
     if ps:
-        st = [c for c in ps.calls(STORE) if "paused" in fields_of(ps, c.args[0])]
-        r2.check(len(st) == 1 and const_int(st[0].args[1]) == 1, "pause-stores-true", "pause stores true", "pause does not simply store true")
-    writers = sorted({c.body.name for c in F.all_calls(STORE) if "paused" in fields_of(c.body, c.args[0]) and "pool::ConnectionPool" in (c.body.locals[o.what]["ty"] if False else "pool::ConnectionPool")} - set())
-    writers = sorted({c.body.name for c in F.all_calls(STORE) if fields_of(c.body, c.args[0]) & {"paused"}})
-    r2.check(writers == [PAUSE, RESUME], "flag-writers", "`paused` is written only by pause() and resume()", "`paused` writers: %s" % writers)
+        st = [c for c in ps.calls(STORE) if F.deep_fields(ps, c.args[0]) & gate]
+        r2.check(len(st) == 1 and ((const_int(st[0].args[1]) == 1 and st[0].name.endswith("::store")) or st[0].name.endswith("::fetch_or")), "pause-stores-true", "pause sets the pause flag (%s)" % (st[0].name.split("::")[-1] if st else ""), "pause does not simply set the pause flag")
+    r2.check(bool(gate), "gate-word", "the pause gate reads ConnectionPool.%s" % sorted(gate), "cannot find the atomic field that paused()/wait_paused() load")
+    wr = {}
+    for c in F.all_calls(STORE):
+        if c.body.name.startswith("bin:") or "::test" in c.body.name:
+            continue
+        if F.deep_fields(c.body, c.args[0]) & gate:
+            base = c.body.name
+            # attribute a write inside a closure / spawned task to the function that created it
+            seen_ = set()
+            while base in F.closure_parents() and base not in seen_:
+                seen_.add(base)
+                base = F.closure_parents()[base][0].name
+            wr.setdefault(base.replace("::{closure#0}", ""), set()).add(c.name.split("::")[-1])
+    writers = sorted(wr)
+    r2.check(writers == [PAUSE, RESUME], "flag-writers", "the word that holds the pause flag is written only by pause() and resume() (%s)" % {k.split("::")[-1]: sorted(v) for k, v in wr.items()},
+             "the word that holds the pause flag (%s) is also written by %s: an unrelated write (e.g. a plain store of another flag sharing the word) clears a PAUSE, new transactions start on the paused pool and SHOW POOLS reports it as not paused"
+             % (sorted(gate), {k.split("::")[-1]: sorted(v) for k, v in wr.items() if k not in (PAUSE, RESUME)}))
     notifiers = sorted({c.body.name for c in F.all_calls("re:^tokio::sync::notify::Notify::(notify_waiters|notify_one|notify_last)$") if "paused_waiter" in fields_of(c.body, c.args[0])})
     r2.check(notifiers == [RESUME], "notifiers", "only resume() notifies paused_waiter", "paused_waiter notifiers: %s" % notifiers)
     # Notify::notify_one()/notify_last() with nobody waiting stores a permit: the next notified().await - i.e. the first client arriving in a
@@ -78,7 +100,9 @@ def run(ctx):
     # each pool gets its own flag and Notify
     fresh = 0
     for b_, blk, st in F.aggregates("pgcat::pool::ConnectionPool"):
-        for fld in ("paused", "paused_waiter"):
+        for fld in sorted(gate | {"paused_waiter"}):
+            if fld not in st["rv"]["fields"]:
+                continue
             op = st["rv"]["ops"][st["rv"]["fields"].index(fld)]
             src = {o.call.name.split("::")[-1] for o in origins(b_, op, taint=True) if o.kind == "call"}
             if "new" in src or "default" in src:
